@@ -162,6 +162,15 @@ def run(ctx):
     vlib.log("spec MaskSet_quick.cfg (a mask's scope does not depend on its index, 4 masks): %d states; mutant (set over "
              "indices < 2, 3 masks) rejected with a %d-state counterexample" % (res2.distinct, len(mut2.trace)))
     model["MaskSet"] = {"mechanism_states": res2.distinct, "mutant_rejected": True, "mutant_trace_len": len(mut2.trace)}
+    # all-digit path elements address object members and array elements alike; "arrays only" rejected
+    res3 = ctx.tlc_expect_ok("MaskPath", "MaskPath_quick.cfg", timeout=300, deadlock=False, workers=4)
+    mut3 = ctx.tlc("MaskPath", "MaskPath_mutant.cfg", timeout=300, deadlock=False, workers=4,
+                   name="MaskPath/mutant (expected violation)")
+    if mut3.ok or mut3.violated != "ElementAddressesMember":
+        raise vlib.Infra("mutant M_NumericKeyAddressesObjectMember=FALSE was not rejected by TLC (violated=%s)" % mut3.violated)
+    vlib.log("spec MaskPath_quick.cfg (a path element addresses object members and array elements alike): %d states; mutant "
+             "(all-digit elements address arrays only) rejected with a %d-state counterexample" % (res3.distinct, len(mut3.trace)))
+    model["MaskPath"] = {"mechanism_states": res3.distinct, "mutant_rejected": True, "mutant_trace_len": len(mut3.trace)}
     model["MaskRules"] = {"mechanism_states": res.distinct, "mutant_rejected": True, "mutant_trace_len": len(mut.trace)}
     ctx.extra["abstract_model"] = model
 
@@ -204,6 +213,10 @@ def run(ctx):
              "silent masks): %d runs" % sm.get("many_masks_runs", 0))
     if not ctx.replay and sm.get("many_masks_runs", 0) < 150:
         raise vlib.Infra("many-masks family did not run: %s" % sm)
+    vlib.log("numeric-keys family (all-digit path elements x array index / object key / absent, global and mask-specific "
+             "lists): %d runs" % sm.get("numeric_key_runs", 0))
+    if not ctx.replay and sm.get("numeric_key_runs", 0) < 100:
+        raise vlib.Infra("numeric-keys family did not run: %s" % sm)
     if not files or sm["unique_records"] == 0:
         raise vlib.Infra("driver produced no records")
     if not ctx.replay and (sm["leaf"] < 20000 or sm["events"] < 1000 or sm["matched"] < 10000):
@@ -277,7 +290,7 @@ def run(ctx):
     # ---- 5. evidence
     ctx.evaluations = agg["records"]
     ctx.traces_validated = (sm["leaf"] + sm["events"] + sm.get("stress_runs", 0) + sm.get("doif_order_runs", 0)
-                            + sm.get("many_masks_runs", 0))
+                            + sm.get("many_masks_runs", 0) + sm.get("numeric_key_runs", 0))
     ctx.nontrivial = sm["matched"] + sm["events"]
     ctx.exhaustive = thorough
     ctx.rule = ("record = one execution of the real Plugin.Do (started by the real Start): leaf records = curated regexp "
@@ -289,7 +302,10 @@ def run(ctx):
                 "field that an earlier mask, a later mask or the mask itself rewrites x events with that field before / "
                 "after / between the secrets (later key, nested object, array); many-masks family = the matching masks (own process "
                 "list, own ignore list, none + global lists) before / behind K in {0,1,62,63,64,65,130} masks that match nothing, "
-                "judged with the silent masks projected away; stress family = 4 instances started on ONE "
+                "judged with the silent masks projected away; numeric-keys family = all-digit path elements in global ignore / "
+                "process lists and mask-specific lists x the addressed node being an array element, an object member with "
+                "that key, or absent; anchors families = expressions with leading ^ / \\A, trailing $, top-level alternation of "
+                "an anchored and a free branch, (?m)^ over multi-line values; stress family = 4 instances started on ONE "
                 "shared config (do_if-guarded masks, match rules, own lists) run concurrently over events with alternating "
                 "do_if outcomes, and masks with match_rules (prefix / suffix / contains, case_insensitive on/off, invert, and/or, "
                 "two rule sets) whose shared RuleSet objects are evaluated by the 4 instances on their own distinct values "
